@@ -510,7 +510,7 @@ fn cli_io_faults(seed: u64, thorough: bool) -> (u64, Vec<Violation>) {
     let mut source = basis.clone();
     source.splice(70_000..70_000, junk(seed, 901, 333));
     source.truncate(149_000);
-    let errnos: Vec<(i32, bool)> = if thorough { vec![(28, false), (5, false), (13, true), (5, true)] } else { vec![(28, false), (13, true)] };
+    let errnos: Vec<(i32, bool)> = if thorough { vec![(28, false), (5, false), (13, true), (5, true), (-1, false)] } else { vec![(28, false), (13, true), (-1, false)] };
     let jobs: Vec<(&str, i32, bool)> = ["sync", "patch"].iter().flat_map(|c| errnos.iter().map(move |e| (*c, e.0, e.1))).collect();
     let res: Vec<(u64, Vec<Violation>)> = jobs
         .par_iter()
